@@ -206,9 +206,18 @@ func c20Exchange(t *testing.T, s *verifh.Session, j *c20Judge, r *rand.Rand, o *
 		for tg := range g.tags {
 			count("tag:" + tg)
 		}
-	case k == 13:
+	case k == 13 || k == 14:
 		sc.firstStatus = 401
-		switch r.Intn(5) {
+		switch r.Intn(8) {
+		case 5, 6, 7:
+			// the malformed family: one parameter of a grammatical list damaged (must be an ERROR end to end)
+			g := c20GenHeader(r, true)
+			x := r.Intn(len(g.lines))
+			lines := append([]string(nil), g.lines...)
+			var way string
+			lines[x], way = c20DamageParam(r, lines[x])
+			sc.www = lines
+			count("damage:" + way)
 		case 0: // no challenge at all
 		case 1:
 			sc.www = []string{verifh.Pick(r, c20OtherChallenges)}
